@@ -48,6 +48,7 @@ def main(argv):
                 m, ref, mlen, idl = mo[3 * k], mo[3 * k + 1], mo[3 * k + 2], ideal["out"][k]
                 r = wc.impl(i, T, "enc", v)
                 run.case((d["text"], T, W.canon(v)))
+                run.hist("theorem_hypotheses", "LenWFBody:%s" % mlen.get("lenwf"))
                 run.hist("faults", inj[0] if inj else "none")
                 run.hist("outcomes", "%s%s" % (r.get("r"), (":" + r.get("e", "")) if r.get("r") == "err" else ""))
                 rep = {"pdl": d["text"], "type": T, "op": "enc", "value": v, "injected": inj, "impl": r,
@@ -87,6 +88,11 @@ def main(argv):
                 if not W.same_enc(r, m):
                     rep["corr"] = "corr:C05/encode/outcome-bytes"
                     run.violation("corr", "encoder model and emitted encoder disagree on %s" % T, rep, found_input=False)
+                elif r["r"] == "ok" and mlen.get("lenwf") and r["len"] != mlen.get("enclen"):
+                    # theorem encBody_len: for a layout meeting LenWFBody, encode writes exactly encLen octets
+                    rep["corr"] = "corr:C05/encLen (right-hand side of theorem encBody_len)"
+                    run.violation("corr", "encLen (%s) and emitted encoded_len (%s) disagree on %s"
+                                  % (mlen.get("enclen"), r["len"], T), rep, found_input=False)
                 elif r["r"] == "ok" and r["len"] != mlen.get("len"):
                     rep["corr"] = "corr:C05/encoded_len"
                     run.violation("corr", "encoded_len model (%s) and emitted encoded_len (%s) disagree on %s"
